@@ -322,7 +322,9 @@ TRInvoke ==
     /\ pend' = {x \in pend : x.p # E.p} \cup
                {[p |-> E.p, i |-> 0, op |-> E.op, k |-> E.k, exp |-> 0, v |-> "-", floorRev |-> 0, m |-> 0, diff |-> FALSE,
                  rev |-> E.rev, unk |-> FALSE, okc |-> FALSE, at |-> l, cm0 |-> cm, fl0 |-> floor,
-                 lo |-> E.lo, hi |-> E.hi, limit |-> E.limit, wr0 |-> maxRev, pfx |-> E.pfx, dirty |-> FALSE]}
+                 lo |-> E.lo, hi |-> E.hi, limit |-> E.limit, wr0 |-> maxRev, pfx |-> E.pfx, dirty |-> FALSE,
+                 \* a read issued while a transient error of the engine's iterator is armed: it may fail (if it answers, the answer counts)
+                 fault |-> IF "fault" \in DOMAIN E THEN E.fault ELSE FALSE]}
     /\ UNCHANGED <<idx, ver, hv, floor, cm, base, maxRet, seen, maxRev, evlog, ws, rds, prefixes, cmax, expiring, chg, ttl, viol>>
 
 KvTuples(kvs) == [i \in 1..Len(kvs) |-> <<kvs[i].k, kvs[i].rev, Unstar(kvs[i].val)>>]
@@ -348,7 +350,7 @@ ReadChecks(o, e) ==
             \cup (IF ok /\ Len(e.kvs) > 0 THEN V(e.hdr >= e.kvs[1][2], "HeaderCoversData") ELSE {})
       [] o.op \in {"list", "stream"} ->
             (IF R < o.fl0 THEN V(~ok, "BelowFloorRefused") ELSE {})
-            \cup (IF R >= floor /\ (o.rev = 0 \/ o.rev <= o.cm0) /\ R > 0 THEN V(ok, "ReadableServed") ELSE {})
+            \cup (IF R >= floor /\ (o.rev = 0 \/ o.rev <= o.cm0) /\ R > 0 /\ ~o.fault THEN V(ok, "ReadableServed") ELSE {})
             \cup (IF ok /\ R >= floor /\ (o.rev = 0 \/ o.rev <= o.cm0)
                   THEN LET ref == RangeRef(hv, KS, R, o.lo, o.hi, o.limit)
                            exp == KvTuples(ref.kvs) IN
@@ -471,7 +473,7 @@ TExpect ==
 
 \* events that carry no obligation for the monitors of this module
 Skippable == {"Deal", "CacheAdd", "Flush", "HubSlow", "HubDelete", "Subscribed", "CacheRead", "WatchClosing",
-              "RetryDeal", "Get", "IterOpen", "IterItem", "Die", "Note"}
+              "RetryDeal", "Get", "IterOpen", "IterItem", "Die", "Note", "IterFault"}
 \* a request made the code under test panic (the driver recovered the goroutine): no property allows that
 TPanic ==
     /\ Is("Panic") /\ Adv
